@@ -26,7 +26,7 @@
 EXTENDS Bytes, TLC
 
 UVal(b) == FoldLeft(LAMBDA a, x : a * 256 + x, 0, b)        \* only applied to count/length fields (small)
-UBytes(n, w) == [i \in 1..w |-> (n \div (256 ^ (w - i))) % 256]
+UBytes(n, w) == Mat([i \in 1..w |-> (n \div (256 ^ (w - i))) % 256])
 
 Zeros(n) == [i \in 1..n |-> 0]
 TrimR(b) == LET nz == {i \in 1..Len(b) : b[i] # 0} IN IF nz = {} THEN <<>> ELSE SubSeq(b, 1, CHOOSE i \in nz : \A j \in nz : j <= i)
@@ -43,7 +43,7 @@ Enc(L, v) ==
            [] f.k = "optulist" -> (IF v[f.n] = <<>> THEN <<>> ELSE UBytes(Len(v[f.n]), f.cw) \o Concat(v[f.n])) \o r
            [] f.k = "list" -> UBytes(Len(v[f.n]), f.cw) \o Concat(Mat([i \in 1..Len(v[f.n]) |-> Enc(f.item, v[f.n][i])])) \o r
 
-Put(fn, k, x) == [y \in DOMAIN fn \cup {k} |-> IF y = k THEN x ELSE fn[y]]
+Put(fn, k, x) == TLCEval([y \in DOMAIN fn \cup {k} |-> IF y = k THEN x ELSE fn[y]])     \* TLCEval: no chains of lazy functions
 Bad == [ok |-> FALSE, v |-> <<>>, rest |-> <<>>]
 
 RECURSIVE Dec(_, _, _)
